@@ -28,6 +28,10 @@ def run(ctx: Ctx, chk) -> None:
     chk.run_rule(valid_sym, ctx)
     chk.run_rule(legacy1, ctx)
     chk.run_rule(enc_sym, ctx)
+    # "saving it and loading the file": every call of save writes the registry as it is at that call (same rule as C16)
+    from .c16 import save_total
+
+    chk.run_rule(save_total, ctx)
 
 
 def stored_attrs(ctx: Ctx, c: ClassInfo) -> dict[str, str]:
